@@ -56,7 +56,7 @@ fn modes() -> Vec<ModeK> {
     ]
 }
 fn rotations() -> Vec<Option<NamingK>> {
-    vec![None, Some(NamingK::Numbers), Some(NamingK::TimestampsDirect)]
+    vec![None, Some(NamingK::Numbers), Some(NamingK::TimestampsDirect), Some(NamingK::NumbersDirect)]
 }
 fn rec_alphabet() -> Vec<HOp> {
     vec![HOp::W(5), HOp::W(1), HOp::W(N as usize), HOp::W(3 * N as usize), HOp::R, HOp::F, HOp::Reopen]
@@ -113,6 +113,8 @@ fn bounds(tier: &str) -> Value {
 fn cfg_for(rot: Option<NamingK>, mode: ModeK) -> Cfg {
     let mut cfg = match rot {
         None => Cfg::norot(),
+        // NumbersDirect stands for "with a cleanup that compresses every rotated file at once"
+        Some(NamingK::NumbersDirect) => Cfg::rot(CritK::Size(N), NamingK::NumbersDirect, CleanK::Gz(100)),
         Some(n) => Cfg::rot(CritK::Size(N), n, CleanK::Never),
     };
     cfg.mode = mode;
@@ -308,6 +310,12 @@ fn check_chunks(rot: Option<NamingK>, chunks: &[Vec<u8>], out: &mut Out, case: &
     let control = chunks.iter().any(|c| c == b"F" || c == b"S");
     let mut all_modes = vec![ModeK::Direct];
     all_modes.extend(modes());
+    // the list of files direct mode leaves (names and contents): every chunk is one write
+    // operation in every mode, so the partition into files does not depend on the mode either
+    let direct_files: Option<Files> = match run_mode(ModeK::Direct, false, chunks_body(rot, ModeK::Direct, chunks.to_vec())) {
+        Ok(Ok(o)) => Some(o.files),
+        _ => None,
+    };
     for mode in all_modes {
         for eager in [false, true] {
             if !mode.is_async() && eager {
@@ -347,6 +355,17 @@ fn check_chunks(rot: Option<NamingK>, chunks: &[Vec<u8>], out: &mut Out, case: &
                         ));
                     } else if !o.errs.is_empty() {
                         out.violation(Violation::new("error-channel", cause, format!("rot={rot:?} chunks={names:?}: {:?}", o.errs), c));
+                    } else if mode != ModeK::Direct && !(control && mode.is_async()) {
+                        if let Some(d) = &direct_files {
+                            if *d != o.files {
+                                out.violation(Violation::new(
+                                    "chunk-files-differ",
+                                    cause,
+                                    format!("rot={rot:?} chunks={names:?}: the files differ from what direct mode leaves\n   direct: {:?}\n   {}: {:?}", show(d), mode_name(mode, eager), show(&o.files)),
+                                    c,
+                                ));
+                            }
+                        }
                     }
                 }
                 Ok(Err(e)) | Err(e) => {
